@@ -66,6 +66,11 @@ REVERT_EXPECT: Dict[str, List[Tuple[str, str]]] = {
     "27c3e92": [("C16", "K2.terms-copied"), ("C14", "K2.terms-copied")],
     "a741347": [("C01", "K7.initial-state"), ("C02", "K7.initial-state")],
     "eb2afe1": [("C01", "K6.initial-state-shapes")],
+    "8c999d6": [("C06", "K9.identity-term")],
+    "e7ccf88": [("C07", "K8.update-equals-rebuild")],
+    "e8e6afc": [("C07", "K8.term-order")],
+    "b8efc25": [("C08", "K9.deflation")],
+    "a2c7518": [("C04", "K5.ci-search-space")],
 }
 
 
